@@ -1,15 +1,29 @@
 package interp
 
-import "github.com/benhoyt/goawk/parser"
+import (
+	"fmt"
+
+	"github.com/benhoyt/goawk/parser"
+)
 
 // verifParse parses a harness template program with the real parser/resolver/compiler.
 // The engine runs this body once per worker and shares the resulting (frozen) Program
 // between paths; a store into it is reported as a violation of Program immutability.
+var verifParsed = map[string]*parser.Program{}
+
+func init() {
+	verifResetHooks = append(verifResetHooks, func() { verifParsed = map[string]*parser.Program{} })
+}
+
 func verifParse(src string) *parser.Program {
+	if p, ok := verifParsed[src]; ok {
+		return p // natively, too, one Program per source text is shared by all executions of a harness
+	}
 	prog, err := parser.ParseProgram([]byte(src), nil)
 	if err != nil {
 		panic("harness program does not parse: " + err.Error())
 	}
+	verifParsed[src] = prog
 	return prog
 }
 
@@ -124,3 +138,8 @@ func verifRegexFindAll(pattern, s string, n int) [][]int {
 	}
 	return out
 }
+
+// verifSnapshot renders a value deeply (native replay only): used to notice natively that a shared
+// object was modified.  In the engine the write barrier on frozen objects reports the store itself,
+// so the snapshot is the constant "".
+func verifSnapshot(v interface{}) string { return fmt.Sprintf("%+v", v) }
